@@ -92,8 +92,14 @@ pub fn execute_with(prop: &PropDef, cfg: &Cfg, evs: &[Ev], mut oracle: Box<dyn O
     install_hooks(cfg);
     let trace = std::env::var("AMSIM_TRACE").is_ok();
     let mut world = World::new(cfg.clone());
+    // set as soon as one byzantine event (corrupted packet / sync message / file / id) has started: from then on a
+    // library panic is the business of C15/C16 (crafted input), not of the property whose honest workload this is
+    let byz_seen = std::cell::Cell::new(false);
     let res = monitor::guarded(|| -> Result<(), Violation> {
         for ev in evs {
+            if ev.is_byzantine() {
+                byz_seen.set(true);
+            }
             oracle.before(&mut world, ev);
             let out = world.exec(ev);
             if trace {
@@ -132,6 +138,18 @@ pub fn execute_with(prop: &PropDef, cfg: &Cfg, evs: &[Ev], mut oracle: Box<dyn O
                     // byzantine-input properties identify a finding by the source file that panics: the tail of
                     // distinct unwrap/index sites inside one decoder is long and input-dependent
                     signature: if COARSE_SIGNATURES.contains(&prop.id) { p.coarse_signature() } else { p.signature() },
+                    step: p.step,
+                    detail: format!("{} panicked at {}:{}: {}", p.context, p.file, p.line, p.message),
+                })
+            } else if !byz_seen.get() {
+                // An honest run (no crafted input so far) in which a public call panicked: whatever the property promises
+                // about that call, it did not happen. Reported under this property with its own oracle name; the worker
+                // sets it aside (counted, NOTE) when the signature is one of C37's recorded findings, so that one recorded
+                // panic is not reported forty times over.
+                Verdict::Violation(Violation {
+                    property: prop.id.into(),
+                    oracle: "no_panic_in_run".into(),
+                    signature: p.signature(),
                     step: p.step,
                     detail: format!("{} panicked at {}:{}: {}", p.context, p.file, p.line, p.message),
                 })
